@@ -10,6 +10,8 @@ import (
 	"sort"
 	"strings"
 
+	"golang.org/x/tools/go/cfg"
+
 	"daecheck/internal/core"
 )
 
@@ -413,4 +415,161 @@ func sliceBase(e ast.Expr) ast.Expr {
 		return se.X
 	}
 	return e
+}
+
+// c07AnswerAddrsForEveryQtype: in ResponseSelect the loop that collects the addresses of the
+// answer section runs for every question type — response rules `ip(...)` see the addresses of
+// an ANY / HTTPS / CNAME answer too.  The append of an address is dominated by no test of the
+// question type.
+func c07AnswerAddrsForEveryQtype(c *Ctx, rule string, f *core.Func) {
+	info := f.Info()
+	g := f.Graph()
+	n, bad := 0, ""
+	for _, p := range g.Find(func(nd ast.Node) bool {
+		as, ok := nd.(*ast.AssignStmt)
+		if !ok || len(as.Rhs) != 1 {
+			return false
+		}
+		call, ok := ast.Unparen(as.Rhs[0]).(*ast.CallExpr)
+		if !ok {
+			return false
+		}
+		id, ok := call.Fun.(*ast.Ident)
+		if !ok || id.Name != "append" || len(call.Args) < 2 {
+			return false
+		}
+		t := info.TypeOf(call.Args[1])
+		return t != nil && strings.HasSuffix(t.String(), "netip.Addr")
+	}) {
+		n++
+		for _, gd := range g.Guards(p) {
+			mentions := false
+			ast.Inspect(gd.Cond, func(m ast.Node) bool {
+				switch x := m.(type) {
+				case *ast.SelectorExpr:
+					if x.Sel.Name == "Qtype" {
+						mentions = true
+					}
+				case *ast.Ident:
+					if o := info.ObjectOf(x); o != nil {
+						if v, ok := o.(*types.Var); ok && !v.IsField() && strings.EqualFold(core.CanonName(o), "qtype") {
+							mentions = true
+						}
+						// any local defined from a .Qtype selector
+						if v, ok := o.(*types.Var); ok && !v.IsField() && definedFromQtype(info, f.Body, v) {
+							mentions = true
+						}
+					}
+				}
+				return true
+			})
+			if mentions && bad == "" {
+				bad = fmt.Sprintf("the collection at %s is conditional on %s", c.pos(p.Node().Pos()), core.ExprStr(gd.Cond))
+			}
+		}
+	}
+	c.R.Checkf(rule, "answer-addresses-collected-for-every-question-type@"+shortFn(f.Name), c.pos(f.Pos()), bad == "" && n >= 1,
+		"the addresses of the answer section are collected whatever the question type (%d collection site(s))%s", n, func() string {
+			if bad != "" {
+				return " — VIOLATED: " + bad + ": an answer to a non-address question (ANY, HTTPS, CNAME …) that carries A/AAAA records is then matched by ip(...) response rules as if it had no address"
+			}
+			return ""
+		}())
+}
+
+func definedFromQtype(info *types.Info, body ast.Node, v *types.Var) bool {
+	found := false
+	ast.Inspect(body, func(m ast.Node) bool {
+		as, ok := m.(*ast.AssignStmt)
+		if !ok || len(as.Lhs) != len(as.Rhs) {
+			return true
+		}
+		for i, l := range as.Lhs {
+			if id, ok := l.(*ast.Ident); ok && info.ObjectOf(id) == v {
+				if se, ok := ast.Unparen(as.Rhs[i]).(*ast.SelectorExpr); ok && se.Sel.Name == "Qtype" {
+					found = true
+				}
+			}
+		}
+		return true
+	})
+	return found
+}
+
+// c07UpstreamRegisteredBeforeUse: GetUpstream hands out a freshly built upstream only after the
+// ready callback ran for it (Dns.New registers the upstream's identity for response routing in
+// that callback); the only path that may skip the call is the one on which no callback is set.
+func c07UpstreamRegisteredBeforeUse(c *Ctx, rule string) {
+	f := c.fn(rule, "component/dns", "UpstreamResolver.GetUpstream")
+	if f == nil {
+		return
+	}
+	info := f.Info()
+	g := f.Graph()
+	isCb := func(nd ast.Node) bool {
+		r := false
+		ownCalls(nd, func(call *ast.CallExpr, _ bool) {
+			if se, ok := call.Fun.(*ast.SelectorExpr); ok && se.Sel.Name == "FinishInitCallback" {
+				r = true
+			}
+		})
+		return r
+	}
+	// the freshly built upstream: defined by a call whose first result is *Upstream and second an error
+	var created []core.Point
+	var obj types.Object
+	for _, p := range g.Find(func(nd ast.Node) bool {
+		as, ok := nd.(*ast.AssignStmt)
+		if !ok || len(as.Lhs) != 2 || len(as.Rhs) != 1 {
+			return false
+		}
+		if _, ok := ast.Unparen(as.Rhs[0]).(*ast.CallExpr); !ok {
+			return false
+		}
+		t := info.TypeOf(as.Lhs[0])
+		return t != nil && strings.HasSuffix(t.String(), "dns.Upstream")
+	}) {
+		created = append(created, p)
+		if id, ok := p.Node().(*ast.AssignStmt).Lhs[0].(*ast.Ident); ok {
+			obj = info.ObjectOf(id)
+		}
+	}
+	bad := ""
+	for _, p := range created {
+		// exits that return the fresh upstream without having passed the callback, other than via the "no callback set" edge
+		ex := g.ExitsAvoidingE(p.After(), isCb, func(from *cfg.Block, si int) bool {
+			cond, _, _, ok := g.Cond(from)
+			if !ok {
+				return true
+			}
+			for _, at := range core.Atoms(cond, si == 0) {
+				if be, isB := at.Cond.(*ast.BinaryExpr); isB && at.Polarity && be.Op == token.EQL && strings.HasSuffix(core.ExprStr(be.X), ".FinishInitCallback") && core.ExprStr(be.Y) == "nil" {
+					return false // the edge on which there is no callback: nothing to run
+				}
+			}
+			return true
+		})
+		for _, w := range ex {
+			// only exits that return the fresh object matter
+			var rs *ast.ReturnStmt
+			for _, nd := range w.Block.Nodes {
+				if r, ok := nd.(*ast.ReturnStmt); ok {
+					rs = r
+				}
+			}
+			if rs == nil || len(rs.Results) == 0 {
+				continue
+			}
+			if id, ok := ast.Unparen(rs.Results[0]).(*ast.Ident); ok && obj != nil && info.ObjectOf(id) == obj && bad == "" {
+				bad = fmt.Sprintf("the return at %s hands out the fresh upstream on a path (lines %s) that did not run FinishInitCallback", c.pos(rs.Pos()), traceStr(c.P, w.Trace))
+			}
+		}
+	}
+	c.R.Checkf(rule, "fresh-upstream-is-registered-before-it-is-returned@GetUpstream", c.pos(f.Pos()), bad == "" && len(created) >= 1,
+		"every path that returns a freshly initialised upstream ran the ready callback for it (%d creation site(s))%s", len(created), func() string {
+			if bad != "" {
+				return " — VIOLATED: " + bad + ": response routing identifies the answering upstream by the object registered in that callback; an unregistered one counts as `asis` and upstream(...) response rules do not fire"
+			}
+			return ""
+		}())
 }
